@@ -290,7 +290,7 @@ fn failing_unit(ks: &[UKind], seq: &[usize], out: &[u8], cap: usize) -> (usize, 
 
 pub fn run(ctx: &'static Ctx) -> i32 {
     let ks = kinds();
-    let k = ctx.tier.pick(3usize, 5usize);
+    let k = ctx.tier.pick(4usize, 5usize);
     let nk = ks.len() as u64;
     let mut seqs: Vec<Vec<usize>> = vec![];
     for len in 1..=k {
